@@ -187,7 +187,65 @@ impl RawConnection {
     where
         S: AsyncRead + AsyncWrite + Send + 'static,
     {
+        Self::spawn_inner(
+            stream,
+            keepalive_interval,
+            keepalive_timeout,
+            write_coalescing,
+            None,
+        )
+    }
+
+    /// Like `spawn`, with `config.event_sender = Some(..)`: EVENT frames (stream -1) are parsed and
+    /// forwarded. The third value yields one label per forwarded event
+    /// ("TopologyChange" / "StatusChange" / "SchemaChange").
+    pub fn spawn_with_events<S>(
+        stream: S,
+        keepalive_interval: Option<Duration>,
+        keepalive_timeout: Option<Duration>,
+        write_coalescing: bool,
+    ) -> (Self, oneshot::Receiver<String>, mpsc::Receiver<String>)
+    where
+        S: AsyncRead + AsyncWrite + Send + 'static,
+    {
+        let (ev_tx, mut ev_rx) = mpsc::channel::<Event>(1024);
+        let (label_tx, label_rx) = mpsc::channel::<String>(1024);
+        tokio::task::spawn(async move {
+            while let Some(ev) = ev_rx.recv().await {
+                let label = match ev {
+                    Event::TopologyChange(_) => "TopologyChange",
+                    Event::StatusChange(_) => "StatusChange",
+                    Event::SchemaChange(_) => "SchemaChange",
+                    #[allow(unreachable_patterns)]
+                    _ => "OtherEvent",
+                };
+                if label_tx.send(label.to_owned()).await.is_err() {
+                    break;
+                }
+            }
+        });
+        let (conn, broken) = Self::spawn_inner(
+            stream,
+            keepalive_interval,
+            keepalive_timeout,
+            write_coalescing,
+            Some(ev_tx),
+        );
+        (conn, broken, label_rx)
+    }
+
+    fn spawn_inner<S>(
+        stream: S,
+        keepalive_interval: Option<Duration>,
+        keepalive_timeout: Option<Duration>,
+        write_coalescing: bool,
+        event_sender: Option<mpsc::Sender<Event>>,
+    ) -> (Self, oneshot::Receiver<String>)
+    where
+        S: AsyncRead + AsyncWrite + Send + 'static,
+    {
         let mut config = host_connection_config();
+        config.event_sender = event_sender.map(|s| (s, Vec::new()));
         config.keepalive_interval = keepalive_interval;
         config.keepalive_timeout = keepalive_timeout;
         if !write_coalescing {
